@@ -28,7 +28,9 @@ type mutantResult struct {
 // /repo — and the quick check is run against that copy in a subprocess. The
 // check must exit 1 with a VIOLATION line and a report containing the expected
 // rule name. An undetected mutant fails the thorough run: the checker, not the
-// repository, is broken.
+// repository, is broken. Patches marked `# expect: SILENT` are recorded
+// behaviour-preserving refactorings: on those the check must exit 0 without a
+// VIOLATION line, and an alarm fails the thorough run just the same.
 func runMutants(r *core.Run, verif, repo, prop string) {
 	dir := filepath.Join(verif, "mutants", prop)
 	files, _ := filepath.Glob(filepath.Join(dir, "*.diff"))
@@ -61,7 +63,11 @@ func runMutants(r *core.Run, verif, repo, prop string) {
 		if res.Detected {
 			detected++
 		} else {
-			r.Fatal("thorough: mutant %s was NOT detected (expected a report containing %q): %s", filepath.Base(res.File), res.Expect, res.Problem)
+			if res.Expect == "SILENT" {
+				r.Fatal("thorough: %s: %s", filepath.Base(res.File), res.Problem)
+			} else {
+				r.Fatal("thorough: mutant %s was NOT detected (expected a report containing %q): %s", filepath.Base(res.File), res.Expect, res.Problem)
+			}
 		}
 		samples = append(samples, res)
 	}
@@ -122,6 +128,26 @@ func runOneMutant(self, verif, repo, prop, patchFile string) mutantResult {
 				break
 			}
 		}
+	}
+	if res.Expect == "SILENT" {
+		// a behaviour-preserving refactoring: the check must stay quiet
+		switch {
+		case strings.Contains(text, "cannot load"):
+			res.Problem = "refactored tree does not type-check (the patch is invalid)"
+		case exit == 0 && !strings.Contains(text, "\nVIOLATION ") && !strings.HasPrefix(text, "VIOLATION "):
+			res.Detected = true
+			res.Report = "no alarm on a behaviour-preserving refactoring"
+		default:
+			first := ""
+			for i, l := range lines {
+				if strings.HasPrefix(l, "VIOLATION ") && i > 0 {
+					first = lines[i-1]
+					break
+				}
+			}
+			res.Problem = "FALSE ALARM on a behaviour-preserving refactoring: " + first
+		}
+		return res
 	}
 	switch {
 	case exit != 1:
